@@ -378,6 +378,13 @@ def _prep(ctx, case):
     from netqasm.sdk.qubit import Qubit
     from netqasm.sdk.toolbox import set_qubit_state
     th, ph = case["theta"], case["phi"]
+    ctx.count("state_prep_cases")
+    if ctx.counters["state_prep_cases"] % 2 == 0:
+        # the application has looked at a coarse decomposition of the same angles before (public helper, loose tolerance)
+        from netqasm.sdk.toolbox.state_prep import get_angle_spec_from_float
+        get_angle_spec_from_float(th, 0.05)
+        get_angle_spec_from_float(ph, tol=0.02)
+        ctx.count("state_preps_after_a_coarse_look_at_the_angles")
     p = Pipe(max_qubits=2)
     with p.conn as conn:
         q = Qubit(conn)
